@@ -253,11 +253,18 @@ func (zns *ZnPMServer) readNamedPipe(pipe *pipe) {
 
 // summon all writing actions into one goroutine to ensure thread-safe on writing.
 func (zns *ZnPMServer) maintainChildState(cfg ZnPMServerConfig, ln *net.TCPListener, p *pipe) {
+	// refCount counts the workers that have been started or are scheduled to
+	// start, whether they have registered yet or not; StartMaster starts the
+	// first cfg.InitProcs of them itself
+	zns.refCount = cfg.InitProcs
 	for {
 		select {
 		case aw := <-zns.addChan:
+			// a registration does not change the number of started workers
+			// (resetting refCount to len(childs) here forgot the workers of a
+			// spawn batch that had not registered yet: the next batch was
+			// computed from too small a number and exceeded MaxProcs)
 			zns.childs[aw.pid] = aw
-			zns.refCount = len(zns.childs)
 		case uw := <-zns.updateChan:
 			if oldState, ok := zns.childs[uw.pid]; ok {
 				zns.childs[uw.pid] = workerState{
@@ -287,6 +294,10 @@ func (zns *ZnPMServer) maintainChildState(cfg ZnPMServerConfig, ln *net.TCPListe
 				}
 
 				addNum := finalProcNum - currentNum
+				if addNum < 0 {
+					addNum = 0
+					finalProcNum = currentNum
+				}
 				zns.refCount = finalProcNum
 				go func() {
 					for i := 0; i < addNum; i++ {
